@@ -53,11 +53,16 @@ def gen_cases(tr, sd):
         cases.append(dict(level="terminal", mode="aut", kind="lark", text="start: T\nT: A%s\nA: \"ab\"\n" % txt, node=node, mn=(m, n)))
         cases.append(dict(level="rule", mode="cyk", kind="lark", text="start: a%s | \"y\"\na: \"x\"\n" % txt, elt=["x"], mn=(m, n), alt_y=True))
     # rule level
-    rl = ps if tr != "quick" else ps[:13] + rng.sample(ps[13:], 6)
+    # rule level goes through the cubic CYK encoding: bound the counts (thorough: n <= 22, a sample of 140 pairs)
+    if tr != "quick":
+        small = [p for p in ps if p[1] <= 22]
+        rl = rng.sample(small, min(140, len(small)))
+    else:
+        rl = ps[:13] + rng.sample(ps[13:], 6)
     for (m, n) in rl + unb[:4]:
         rep = "{%d,}" % m if n is None else "{%d,%d}" % (m, n)
         cases.append(dict(level="rule", mode="cyk", kind="lark", text="start: a%s | \"y\"\na: \"x\"\n" % rep, elt=["x"], mn=(m, n), alt_y=True))
-        if (n or m) <= (8 if tr == "quick" else 16):
+        if (n or m) <= (8 if tr == "quick" else 12):
             cases.append(dict(level="rule", mode="cyk", kind="lark", text="start: (a b)%s\na: \"x\"\nb: \"y\"\n" % rep, elt=["x", "y"], mn=(m, n), alt_y=False))
     # nested (a{2,3}){m,n}
     for (m, n) in [(1, 2), (2, 3), (0, 3), (2, 2)] + ([(3, 5), (1, 6)] if tr != "quick" else []):
